@@ -113,7 +113,21 @@ Definition set_by_path (t : Z) (bs : list Z) (p : list pstep) (xb : list Z) (xt 
    error may leave a patch behind); a parent of scalar type falls through the switch: empty node at offset 0 *)
 Inductive dcres := DcFound (patch : option (Z * Z)) (s e : Z) | DcNotFound | DcErr (patch : option (Z * Z)) | DcNone.
 
-Definition delete_child (t : Z) (bs : list Z) (s : pstep) : dcres :=
+(* the kind check of deleteChild's MAP case (repair 384585a of finding 408): a string key step needs a STRING-keyed map, an
+   integer key step an integer-keyed one, a raw key fits every map, any other step is an error; [fx = false] is the code
+   before the repair (no check: Path.ToRaw's bytes are compared whatever the step's kind) *)
+Definition key_kind_ok (s : pstep) (kt : Z) : bool :=
+  match s with
+  | PStrKey _ => kt =? T_STRING
+  | PIntKey _ => is_int_type kt
+  | PBinKey _ => true
+  | _ => false
+  end.
+
+Definition map_key_raw (fx : bool) (s : pstep) (kt : Z) : option (list Z) :=
+  if fx && negb (key_kind_ok s kt) then None else to_raw s kt.
+
+Definition delete_child (fx : bool) (t : Z) (bs : list Z) (s : pstep) : dcres :=
   if t =? T_STRUCT then
     match s with
     | PField id =>
@@ -159,7 +173,7 @@ Definition delete_child (t : Z) (bs : list Z) (s : pstep) : dcres :=
       match skip_count r with
       | None => DcErr None
       | Some (sz, _) =>
-        match to_raw s kt with
+        match map_key_raw fx s kt with
         | None => DcErr None
         | Some raw =>
           match search_map (PBinKey raw) bs with                         (* the raw-key loop of searchBinKey *)
@@ -184,7 +198,7 @@ Definition apply_patch (bs : list Z) (base : Z) (patch : option (Z * Z)) : list 
    with the buffer as the failed call leaves it *)
 Inductive ubres := UbOk (bs : list Z) | UbNotFound | UbErr (bs : list Z).
 
-Definition unset_by_path (t : Z) (bs : list Z) (p : list pstep) : ubres :=
+Definition unset_by_path (fx : bool) (t : Z) (bs : list Z) (p : list pstep) : ubres :=
   match split_last p with
   | None => UbOk []                                                       (* *self = Node{} *)
   | Some (pre, ls) =>
@@ -194,7 +208,7 @@ Definition unset_by_path (t : Z) (bs : list Z) (p : list pstep) : ubres :=
     | GNotFound => UbOk bs                                                (* IsErrNotFound: return nil *)
     | GErr => UbErr bs
     | GFound pt ps pe =>
-      match delete_child pt (bfirstn (pe - ps) (bskipn ps bs)) ls with
+      match delete_child fx pt (bfirstn (pe - ps) (bskipn ps bs)) ls with
       | DcErr patch => UbErr (apply_patch bs ps patch)
       | DcNotFound => UbNotFound
       | DcNone => UbOk (replace bs ps ps [])
@@ -208,26 +222,32 @@ Definition ub_bytes (bs : list Z) (r : ubres) : list Z :=
   match r with UbOk b => b | UbNotFound => bs | UbErr b => b end.
 
 (* ---------------- histories at byte level: state = (type, buffer) of the node ---------------- *)
-Definition bytes_step (st : Z * list Z) (o : eop) : Z * list Z :=
+Definition bytes_step (fx : bool) (st : Z * list Z) (o : eop) : Z * list Z :=
   let (t, bs) := st in
   match o with
   | OSet [] x => (type_of x, encode x)
   | OSet p x => match set_by_path t bs p (encode x) (type_of x) with Some (bs', _) => (t, bs') | None => (t, bs) end
   | OUnset [] => (0, [])
-  | OUnset p => (t, ub_bytes bs (unset_by_path t bs p))
+  | OUnset p => (t, ub_bytes bs (unset_by_path fx t bs p))
   end.
 
-Fixpoint bytes_states (st : Z * list Z) (ops : list eop) : list (Z * list Z) :=
+Fixpoint bytes_states (fx : bool) (st : Z * list Z) (ops : list eop) : list (Z * list Z) :=
   match ops with
   | [] => []
-  | o :: r => let st' := bytes_step st o in st' :: bytes_states st' r
+  | o :: r => let st' := bytes_step fx st o in st' :: bytes_states fx st' r
   end.
 
 (* ---------------- the domain of the refinement theorems (computable, so that the checker can tell) ---------------- *)
-(* a raw key that is INSERTED must be the encoding of a key of the map's key type (the code writes the caller's bytes) *)
+(* a raw (binary) key that is INSERTED or UNSET must be a byte string that the proved decoder accepts completely as a key of
+   the map's key type (key_of_step walks it with bounds checks first); by ThriftCanonProofs.decode_canonical it then IS the
+   encoding of the key it denotes.  The code splices / compares the caller's bytes as they are.
+   [raw_key_judge] is a separate function of the decoding RESULT so that no proof computes with key_of_step on a raw key. *)
+Definition is_some {A} (o : option A) : bool := match o with Some _ => true | None => false end.
+Definition raw_key_judge (ko : option tval) (b : list Z) : bool := bytes_okb b && is_some ko.
+
 Definition raw_key_ok (s : pstep) (v : tval) : bool :=
   match s, v with
-  | PBinKey b, VMap kt _ _ => match key_of_step kt s with Some kv => bytes_eqb (encode kv) b | None => false end
+  | PBinKey b, VMap kt _ _ => raw_key_judge (key_of_step kt s) b
   | _, _ => true
   end.
 
@@ -242,36 +262,35 @@ Fixpoint set_dom (p : list pstep) (v : tval) : bool :=
     end
   end.
 
-(* deleteChild compares the RAW bytes Path.ToRaw gives for the map's key type with the raw key bytes of the entries:
-   a step of another kind than the map's keys (a string key on an integer-keyed map, a field id) has raw bytes too and
-   the comparison is between unrelated encodings; such last steps are outside the theorem (the spec calls them errors);
-   a raw key must be the encoding of a key of the map's key type *)
-Definition unset_last_ok (s : pstep) (v : tval) : bool :=
+(* the last step of an unset on a map: a raw key must be the encoding of a key of the map's key type.  BEFORE the repair of
+   finding 408 deleteChild compared the raw bytes Path.ToRaw gives with the raw key bytes whatever the step's kind (a string key
+   step on an integer-keyed map, a field id step): such last steps are outside the theorems for [fx = false] *)
+Definition unset_last_ok (fx : bool) (s : pstep) (v : tval) : bool :=
   match s, v with
-  | PStrKey _, VMap kt _ _ => kt =? T_STRING
-  | PField _, VMap _ _ _ => false
+  | PStrKey _, VMap kt _ _ => fx || (kt =? T_STRING)
+  | PField _, VMap _ _ _ => fx
   | PBinKey _, VMap _ _ _ => raw_key_ok s v
   | _, _ => true
   end.
 
-Fixpoint unset_dom (p : list pstep) (v : tval) : bool :=
+Fixpoint unset_dom (fx : bool) (p : list pstep) (v : tval) : bool :=
   match p with
   | [] => false
-  | [s] => unset_last_ok s v
-  | s :: p' => match lookup1 v s with LFound c _ => unset_dom p' c | _ => true end
+  | [s] => unset_last_ok fx s v
+  | s :: p' => match lookup1 v s with LFound c _ => unset_dom fx p' c | _ => true end
   end.
 
 Definition is_nil {A} (l : list A) : bool := match l with [] => true | _ => false end.
 
-Definition op_dom (v : tval) (o : eop) : bool :=
+Definition op_dom (fx : bool) (v : tval) (o : eop) : bool :=
   (depth v <=? max_skip_depth)%nat &&
   match o with
   | OSet p x => negb (is_nil p) && wf x && set_compat p x v && set_dom p v
-  | OUnset p => unset_dom p v
+  | OUnset p => unset_dom fx p v
   end.
 
-Fixpoint history_dom (v : tval) (ops : list eop) : bool :=
+Fixpoint history_dom (fx : bool) (v : tval) (ops : list eop) : bool :=
   match ops with
   | [] => true
-  | o :: r => op_dom v o && history_dom (ast_step true v o) r
+  | o :: r => op_dom fx v o && history_dom fx (ast_step true v o) r
   end.
